@@ -174,6 +174,18 @@ impl GenerationCache {
             .any(|file| !output_dir.as_ref().join(file).is_file()))
     }
 
+    /// Whether the dependency visualisation in the output directory is what would be written
+    /// now. The hashes of the cache record do not cover everything the visualisation shows
+    /// (the line of each command, the number of type definitions), so a record that matches
+    /// does not vouch for these two files.
+    pub fn visualization_is_current<P: AsRef<Path>>(output_dir: P, text: &str, dot: &str) -> bool {
+        let dir = output_dir.as_ref();
+        let same = |file: &str, expected: &str| {
+            fs::read_to_string(dir.join(file)).is_ok_and(|content| content == expected)
+        };
+        same("dependency-graph.txt", text) && same("dependency-graph.dot", dot)
+    }
+
     /// Get the cache file path
     fn cache_path<P: AsRef<Path>>(output_dir: P) -> PathBuf {
         output_dir.as_ref().join(CACHE_FILE_NAME)
